@@ -7,9 +7,9 @@
 //@attach fn=crc112
 //@| #[cfg_attr(kani, kani::requires(crate::verif_spec::valid_msg(message) && message.len() == 28))]
 //@| #[cfg_attr(kani, kani::ensures(|r: &u32| *r == crate::verif_spec::crc24(message, 88)))]
-//@attach fn=get_crc
-//@| #[cfg_attr(kani, kani::requires(crate::verif_spec::valid_msg(message) && (df <= 15 || message.len() == 28)))]
-//@| #[cfg_attr(kani, kani::ensures(|r: &u32| *r == if df <= 15 { crc56(message) } else { crc112(message) }))]
+// get_crc carries no attached Kani contract (it is replaced by a stand-in in the get_message
+// obligations, and Kani cannot stub a function with contract attributes); its contract is the
+// harness-form obligation L1.get_crc.* below.
 
 #[cfg(kani)]
 mod verif_l1_crc {
